@@ -1,3 +1,202 @@
 import GambitV.Model.Pipeline
+import GambitV.Props.C05
+
+/-!
+# C08 — `gambit query`: one output row per input, in input order, each a function of its own input
+
+The pipeline model (`Model/Pipeline.lean`) composes the stages as the code does: labels and
+signatures in file order, the chunked distance matrix with reference selection (`matrixModel`,
+`C05.matrix_cells`), classification of row `i`, export of item `i`, `zip` with the labels.  The
+theorems say that this is a `map` over the inputs (`pipeline_eq_spec`): independent of the chunk
+size, row `i` depends on input `i` and the database only, and the rows of a permuted batch are the
+permuted rows.  Everything is parametric in the per-item functions.  Core Lean only.
+-/
 namespace GambitV.C08
+open GambitV
+
+section Pipeline
+
+variable {σ β δ ρ ε : Type} [Inhabited β] (sigOf : List Char → σ) (dist : σ → β → δ)
+  (classify : List δ → ρ) (exportRow : List Char → ρ → ε) (refs : List β)
+  (refIdx : Option (List Nat))
+
+/-- `zip` of two maps of the same list, mapped: a single map. -/
+theorem map_zip_map {α γ₁ γ₂ ζ : Type} (f : α → γ₁) (g : α → γ₂) (h : γ₁ × γ₂ → ζ) (l : List α) :
+    ((l.map f).zip (l.map g)).map h = l.map (fun a => h (f a, g a)) := by
+  induction l with
+  | nil => rfl
+  | cons a l ih => simp only [List.map_cons, List.zip_cons_cons, ih]
+
+/-- 2. The chunked, matrix-based pipeline is a `map` over the inputs; in particular it does not depend
+on `chunk` (nor on the initial content of the output buffer). -/
+theorem pipeline_eq_spec (chunk : Option Nat) (hchunk : ∀ c, chunk = some c → 0 < c)
+    (files : List (List Char × List Char)) :
+    queryPipeline sigOf dist classify exportRow refs refIdx chunk files =
+      queryRowsSpec sigOf dist classify exportRow refs refIdx files := by
+  unfold queryPipeline queryRowsSpec fileLabels
+  simp only []
+  rw [C05.matrix_cells dist _ refs refIdx chunk hchunk _ (by simp)
+    (by intro row hrow
+        simp only [List.map_map, List.mem_map] at hrow
+        obtain ⟨_, _, rfl⟩ := hrow
+        simp)]
+  rw [List.map_map, map_zip_map]
+  rfl
+
+/-- 1. One output row per input file. -/
+theorem rows_length (chunk : Option Nat) (hchunk : ∀ c, chunk = some c → 0 < c)
+    (files : List (List Char × List Char)) :
+    (queryPipeline sigOf dist classify exportRow refs refIdx chunk files).length = files.length := by
+  rw [pipeline_eq_spec sigOf dist classify exportRow refs refIdx chunk hchunk]
+  simp [queryRowsSpec]
+
+/-- The row computed for one input: a function of that input and the database only. -/
+def rowOf (f : List Char × List Char) : ε :=
+  exportRow (fileLabel f.1)
+    (classify ((refIdx.getD (List.range refs.length)).map (fun j => dist (sigOf f.2) (refs.getD j default))))
+
+/-- 3. The `i`-th output is `exportRow (fileLabel files[i].1) (classify (… dist (sigOf files[i].2) …))`:
+a function of input `i` and the database only. -/
+theorem row_local (chunk : Option Nat) (hchunk : ∀ c, chunk = some c → 0 < c)
+    (files : List (List Char × List Char)) (i : Nat) (hi : i < files.length) :
+    (queryPipeline sigOf dist classify exportRow refs refIdx chunk files)[i]'(by
+        rw [rows_length sigOf dist classify exportRow refs refIdx chunk hchunk]; exact hi) =
+      exportRow (fileLabel files[i].1)
+        (classify ((refIdx.getD (List.range refs.length)).map
+          (fun j => dist (sigOf files[i].2) (refs.getD j default)))) := by
+  simp only [pipeline_eq_spec sigOf dist classify exportRow refs refIdx chunk hchunk, queryRowsSpec,
+    List.getElem_map]
+
+/-- 3'. The same in `getElem?` form (no bound proof in the statement). -/
+theorem row_local? (chunk : Option Nat) (hchunk : ∀ c, chunk = some c → 0 < c)
+    (files : List (List Char × List Char)) (i : Nat) :
+    (queryPipeline sigOf dist classify exportRow refs refIdx chunk files)[i]? =
+      files[i]?.map (rowOf sigOf dist classify exportRow refs refIdx) := by
+  rw [pipeline_eq_spec sigOf dist classify exportRow refs refIdx chunk hchunk]
+  simp only [queryRowsSpec, List.getElem?_map]
+  rfl
+
+/-- 4. A file gets the same row alone or within any batch, in any position, with any chunking. -/
+theorem batch_independent (chunk chunk' : Option Nat) (hchunk : ∀ c, chunk = some c → 0 < c)
+    (hchunk' : ∀ c, chunk' = some c → 0 < c)
+    (files files' : List (List Char × List Char)) (i j : Nat) (hi : i < files.length)
+    (hj : j < files'.length) (h : files[i] = files'[j]) :
+    (queryPipeline sigOf dist classify exportRow refs refIdx chunk files)[i]'(by
+        rw [rows_length sigOf dist classify exportRow refs refIdx chunk hchunk]; exact hi) =
+    (queryPipeline sigOf dist classify exportRow refs refIdx chunk' files')[j]'(by
+        rw [rows_length sigOf dist classify exportRow refs refIdx chunk' hchunk']; exact hj) := by
+  rw [row_local sigOf dist classify exportRow refs refIdx chunk hchunk files i hi,
+    row_local sigOf dist classify exportRow refs refIdx chunk' hchunk' files' j hj, h]
+
+/-- 4'. In particular: row `i` of a batch is the single row of the batch `[files[i]]`. -/
+theorem batch_singleton (chunk : Option Nat) (hchunk : ∀ c, chunk = some c → 0 < c)
+    (files : List (List Char × List Char)) (i : Nat) (hi : i < files.length) :
+    queryPipeline sigOf dist classify exportRow refs refIdx chunk [files[i]] =
+      [(queryPipeline sigOf dist classify exportRow refs refIdx chunk files)[i]'(by
+        rw [rows_length sigOf dist classify exportRow refs refIdx chunk hchunk]; exact hi)] := by
+  rw [row_local sigOf dist classify exportRow refs refIdx chunk hchunk files i hi,
+    pipeline_eq_spec sigOf dist classify exportRow refs refIdx chunk hchunk]
+  rfl
+
+/-- 5. Permuting the inputs permutes the rows. -/
+theorem rows_perm (chunk : Option Nat) (hchunk : ∀ c, chunk = some c → 0 < c)
+    (files files' : List (List Char × List Char)) (h : files.Perm files') :
+    (queryPipeline sigOf dist classify exportRow refs refIdx chunk files).Perm
+      (queryPipeline sigOf dist classify exportRow refs refIdx chunk files') := by
+  rw [pipeline_eq_spec sigOf dist classify exportRow refs refIdx chunk hchunk,
+    pipeline_eq_spec sigOf dist classify exportRow refs refIdx chunk hchunk]
+  exact h.map _
+
+/-- Appending inputs appends rows (rows of the first part are unaffected by what follows). -/
+theorem rows_append (chunk : Option Nat) (hchunk : ∀ c, chunk = some c → 0 < c)
+    (files files' : List (List Char × List Char)) :
+    queryPipeline sigOf dist classify exportRow refs refIdx chunk (files ++ files') =
+      queryPipeline sigOf dist classify exportRow refs refIdx chunk files ++
+      queryPipeline sigOf dist classify exportRow refs refIdx chunk files' := by
+  simp only [pipeline_eq_spec sigOf dist classify exportRow refs refIdx chunk hchunk, queryRowsSpec,
+    List.map_append]
+
+end Pipeline
+
+/-! ### 6. Which files are queried, and how they are labelled -/
+
+/-- Positional paths win; each is opened and labelled as given. -/
+theorem sequenceFiles_positional (positional : List (List Char)) (lines : Option (List (List Char)))
+    (ldir : List Char) (h : positional ≠ []) :
+    sequenceFiles positional lines ldir = some (positional.map (fun p => (p, p))) := by
+  unfold sequenceFiles
+  cases positional with
+  | nil => exact absurd rfl h
+  | cons p ps => rfl
+
+/-- List file: blank lines skipped, order kept, opened relative to the base directory, labelled from
+the line text. -/
+theorem sequenceFiles_list (lines : List (List Char)) (ldir : List Char) :
+    sequenceFiles [] (some lines) ldir =
+      some ((lines.filter (· ≠ [])).map (fun l => (l, ldir ++ ['/'] ++ l))) := by
+  unfold sequenceFiles
+  have : (fun l : List Char => !l.isEmpty) = (fun l => decide (l ≠ [])) := by
+    funext l; cases l <;> simp
+  simp [this]
+
+theorem sequenceFiles_none (ldir : List Char) : sequenceFiles [] none ldir = none := rfl
+
+/-- In the list-file case the label of line `l` is `fileLabel l`: the base directory plays no role. -/
+theorem fileLabels_list (lines : List (List Char)) (ldir : List Char)
+    (files : List (List Char × List Char)) (h : sequenceFiles [] (some lines) ldir = some files) :
+    fileLabels files = (lines.filter (· ≠ [])).map fileLabel := by
+  rw [sequenceFiles_list] at h
+  cases h
+  simp [fileLabels, List.map_map, Function.comp_def]
+
+/-- … so two base directories give the same labels. -/
+theorem fileLabels_list_ldir (lines : List (List Char)) (ldir ldir' : List Char)
+    (files files' : List (List Char × List Char))
+    (h : sequenceFiles [] (some lines) ldir = some files)
+    (h' : sequenceFiles [] (some lines) ldir' = some files') :
+    fileLabels files = fileLabels files' := by
+  rw [fileLabels_list lines ldir files h, fileLabels_list lines ldir' files' h']
+
+theorem fileLabels_positional (positional : List (List Char)) (lines : Option (List (List Char)))
+    (ldir : List Char) (files : List (List Char × List Char)) (hp : positional ≠ [])
+    (h : sequenceFiles positional lines ldir = some files) :
+    fileLabels files = positional.map fileLabel := by
+  rw [sequenceFiles_positional positional lines ldir hp] at h
+  cases h
+  simp [fileLabels, List.map_map, Function.comp_def]
+
+/-! ### 7. Non-vacuity -/
+
+section Examples
+
+private def files3 : List (List Char × List Char) :=
+  [("d/a.fa".toList, "d/a.fa".toList), ("bb.fasta.gz".toList, "x/bb.fasta.gz".toList),
+   ("c".toList, "c".toList)]
+
+-- signature = length of the opened path, `dist a b = a + b`, references `[100, 200, 300]` selected
+-- as `[2, 0]`, chunk size 1 (two chunks), `classify = sum`, export = (label length, result).
+example :
+    queryPipeline (σ := Nat) (β := Nat) List.length (fun a b => a + b) List.sum
+      (fun l r => (l.length, r)) [100, 200, 300] (some [2, 0]) (some 1) files3 =
+    [(1, 412), (2, 426), (1, 402)] := by decide
+
+example :
+    queryRowsSpec (σ := Nat) (β := Nat) List.length (fun a b => a + b) List.sum
+      (fun l r => (l.length, r)) [100, 200, 300] (some [2, 0]) files3 =
+    [(1, 412), (2, 426), (1, 402)] := by decide
+
+-- the second file alone gives the second row
+example :
+    queryPipeline (σ := Nat) (β := Nat) List.length (fun a b => a + b) List.sum
+      (fun l r => (l.length, r)) [100, 200, 300] (some [2, 0]) none
+      [("bb.fasta.gz".toList, "x/bb.fasta.gz".toList)] = [(2, 426)] := by decide
+
+example : sequenceFiles [] (some ["a.fa".toList, [], "b.fa".toList]) "dir".toList =
+    some [("a.fa".toList, "dir/a.fa".toList), ("b.fa".toList, "dir/b.fa".toList)] := by decide
+
+example : fileLabels [("a.fa".toList, "dir/a.fa".toList), ("sub/b.fna.gz".toList, "dir/sub/b.fna.gz".toList)] =
+    ["a".toList, "b".toList] := by decide
+
+end Examples
+
 end GambitV.C08
